@@ -1,69 +1,113 @@
-(* C01 / C09 / C14 -- the six marginalisation branches of TimeFixedGFormula.fit, regenerated on every run
-   (ZepidGen.Gen_gfmarg_Q: which aggregate, over which rows -- the mask on the OBSERVED exposure --, of which columns)
-   are the model Model.Estimators.gf_marginal on the rows' (observed exposure, prediction under the plan, weight);
-   the unweighted branches are the weighted ones with every weight equal to one. *)
+(* C01 / C09 / C14 -- the marginalisation branches of TimeFixedGFormula.fit and of every Monte-Carlo replicate of
+   TimeFixedGFormula.fit_stochastic, regenerated on every run (ZepidGen.Gen_gfmarg_Q: which aggregate, over which rows -- the
+   mask on the OBSERVED exposure --, of which columns), are the model Model.Estimators.gf_marginal on the rows'
+   (observed exposure, prediction, weight); the unweighted branches are the weighted ones with every weight equal to one. *)
 From Coq Require Import QArith List Bool Lra Lqa.
 From Zepid Require Import Base.QSum Base.QUtil Base.QAgg Base.Rows Model.Estimators.
 From ZepidGen Require Import Gen_gfmarg_Q.
 Import ListNotations.
 Open Scope Q_scope.
 
-Definition view (a : bool) (l : list row) : list (bool * Q * Q) := map (fun r => (trt r, qa a r, wt r)) l.
+(* rows as the code sees them, for an arbitrary per-row prediction f (qa a: the deterministic plans of fit; the prediction
+   at a replicate's random assignment: fit_stochastic) *)
+Definition viewf (f : row -> Q) (l : list row) : list (bool * Q * Q) := map (fun r => (trt r, f r, wt r)) l.
+Definition view (a : bool) (l : list row) : list (bool * Q * Q) := viewf (qa a) l.
+Definition gf_marginal_f (t : target) (f : row -> Q) (l : list row) : Q :=
+  Qsum (fun r => wt r * f r) (filter (in_target t) l) / Qsum wt (filter (in_target t) l).
+Lemma gf_marginal_is_f t a l : gf_marginal t a l = gf_marginal_f t (qa a) l.
+Proof. reflexivity. Qed.
 
-Lemma filter_view (p : bool -> bool) a l :
-  filter (fun x => p (fst (fst x))) (view a l) = view a (filter (fun r => p (trt r)) l).
+Lemma filter_viewf (p : bool -> bool) f l :
+  filter (fun x => p (fst (fst x))) (viewf f l) = viewf f (filter (fun r => p (trt r)) l).
 Proof.
-  unfold view. induction l as [|r rs IH]; cbn [map filter fst]; [reflexivity|].
+  unfold viewf. induction l as [|r rs IH]; cbn [map filter fst]; [reflexivity|].
   destruct (p (trt r)); cbn [map]; rewrite IH; reflexivity.
 Qed.
+Lemma wsum_viewf f l : Qsum (fun x => snd x * snd (fst x)) (viewf f l) == Qsum (fun r => wt r * f r) l.
+Proof. unfold viewf. rewrite Qsum_map. apply Qsum_ext_all. intros r. cbn [fst snd]. reflexivity. Qed.
+Lemma wtot_viewf f l : Qsum (fun x => snd x) (viewf f l) == Qsum wt l.
+Proof. unfold viewf. rewrite Qsum_map. apply Qsum_ext_all. intros r. reflexivity. Qed.
+Lemma psum_viewf f l : Qsum (fun x => snd (fst x)) (viewf f l) == Qsum f l.
+Proof. unfold viewf. rewrite Qsum_map. apply Qsum_ext_all. intros r. reflexivity. Qed.
+Lemma len_viewf f l : Qlen (viewf f l) = Qlen l.
+Proof. unfold Qlen, viewf. rewrite map_length. reflexivity. Qed.
+Lemma filter_all l : filter (in_target TAll) l = l.
+Proof. induction l as [|r rs IH]; cbn; [reflexivity|rewrite IH; reflexivity]. Qed.
 
-Lemma wsum_view a l : Qsum (fun x => snd x * snd (fst x)) (view a l) == Qsum (fun r => wt r * qa a r) l.
-Proof. unfold view. rewrite Qsum_map. apply Qsum_ext_all. intros r. cbn [fst snd]. reflexivity. Qed.
-Lemma wtot_view a l : Qsum (fun x => snd x) (view a l) == Qsum wt l.
-Proof. unfold view. rewrite Qsum_map. apply Qsum_ext_all. intros r. reflexivity. Qed.
-Lemma psum_view a l : Qsum (fun x => snd (fst x)) (view a l) == Qsum (qa a) l.
-Proof. unfold view. rewrite Qsum_map. apply Qsum_ext_all. intros r. reflexivity. Qed.
-Lemma len_view a l : Qlen (view a l) = Qlen l.
-Proof. unfold Qlen, view. rewrite map_length. reflexivity. Qed.
+Lemma unit_weights_f t f l : (forall r, In r l -> wt r == 1) ->
+  Qsum (fun r => wt r * f r) (filter (in_target t) l) == Qsum f (filter (in_target t) l) /\
+  Qsum wt (filter (in_target t) l) == Qlen (filter (in_target t) l).
+Proof.
+  intros H.
+  assert (Hs : forall r, In r (filter (in_target t) l) -> wt r == 1) by (intros r Hr; apply H; apply filter_In in Hr; tauto).
+  split.
+  - apply Qsum_ext. intros r Hr. rewrite (Hs r Hr). ring.
+  - rewrite <- Qsum_one. apply Qsum_ext. intros r Hr. exact (Hs r Hr).
+Qed.
+
+(* ---- TimeFixedGFormula.fit *)
+Lemma gen_fit_w t f l :
+  (match t with TAll => gf_fit_population_w_Q | TExposed => gf_fit_exposed_w_Q | TUnexposed => gf_fit_unexposed_w_Q end) (viewf f l)
+  == gf_marginal_f t f l.
+Proof.
+  unfold gf_marginal_f.
+  destruct t; [unfold gf_fit_population_w_Q|unfold gf_fit_exposed_w_Q|unfold gf_fit_unexposed_w_Q]; cbv zeta.
+  - rewrite filter_all, wsum_viewf, wtot_viewf. reflexivity.
+  - rewrite (filter_viewf (fun b => b) f l), wsum_viewf, wtot_viewf. reflexivity.
+  - rewrite (filter_viewf negb f l), wsum_viewf, wtot_viewf. reflexivity.
+Qed.
+
+Lemma gen_fit_now t f l : (forall r, In r l -> wt r == 1) ->
+  (match t with TAll => gf_fit_population_now_Q | TExposed => gf_fit_exposed_now_Q | TUnexposed => gf_fit_unexposed_now_Q end) (viewf f l)
+  == gf_marginal_f t f l.
+Proof.
+  intros H. unfold gf_marginal_f. destruct (unit_weights_f t f l H) as [E1 E2]. rewrite E1, E2.
+  destruct t; [unfold gf_fit_population_now_Q|unfold gf_fit_exposed_now_Q|unfold gf_fit_unexposed_now_Q]; cbv zeta.
+  - rewrite filter_all, psum_viewf, len_viewf. reflexivity.
+  - rewrite (filter_viewf (fun b => b) f l), psum_viewf, len_viewf. reflexivity.
+  - rewrite (filter_viewf negb f l), psum_viewf, len_viewf. reflexivity.
+Qed.
 
 Lemma gen_gf_population_w a l : gf_fit_population_w_Q (view a l) == gf_marginal TAll a l.
-Proof.
-  unfold gf_fit_population_w_Q, gf_marginal. cbv zeta.
-  assert (E : filter (in_target TAll) l = l) by (induction l as [|r rs IH]; cbn; [reflexivity|rewrite IH; reflexivity]).
-  rewrite E, wsum_view, wtot_view. reflexivity.
-Qed.
-
+Proof. exact (gen_fit_w TAll (qa a) l). Qed.
 Lemma gen_gf_exposed_w a l : gf_fit_exposed_w_Q (view a l) == gf_marginal TExposed a l.
-Proof.
-  unfold gf_fit_exposed_w_Q, gf_marginal. cbv zeta.
-  rewrite (filter_view (fun b => b) a l), wsum_view, wtot_view. reflexivity.
-Qed.
-
+Proof. exact (gen_fit_w TExposed (qa a) l). Qed.
 Lemma gen_gf_unexposed_w a l : gf_fit_unexposed_w_Q (view a l) == gf_marginal TUnexposed a l.
-Proof.
-  unfold gf_fit_unexposed_w_Q, gf_marginal. cbv zeta.
-  rewrite (filter_view negb a l), wsum_view, wtot_view. reflexivity.
-Qed.
-
-(* unweighted branches: np.mean over the same rows = the weighted mean when every weight is one *)
-Lemma unit_weights_sum a (s : list row) : (forall r, In r s -> wt r == 1) ->
-  Qsum (fun r => wt r * qa a r) s == Qsum (qa a) s /\ Qsum wt s == Qlen s.
-Proof.
-  intros H. split.
-  - apply Qsum_ext. intros r Hr. rewrite (H r Hr). ring.
-  - rewrite <- Qsum_one. apply Qsum_ext. intros r Hr. exact (H r Hr).
-Qed.
-
+Proof. exact (gen_fit_w TUnexposed (qa a) l). Qed.
 Lemma gen_gf_now t a l : (forall r, In r l -> wt r == 1) ->
   (match t with TAll => gf_fit_population_now_Q | TExposed => gf_fit_exposed_now_Q | TUnexposed => gf_fit_unexposed_now_Q end) (view a l)
   == gf_marginal t a l.
+Proof. exact (gen_fit_now t (qa a) l). Qed.
+
+(* ---- TimeFixedGFormula.fit_stochastic: every replicate is marginalised in the same way, whatever its predictions f *)
+Lemma gen_sto_w t f l :
+  (match t with TAll => gf_sto_population_w_Q | TExposed => gf_sto_exposed_w_Q | TUnexposed => gf_sto_unexposed_w_Q end) (viewf f l)
+  == gf_marginal_f t f l.
 Proof.
-  intros H. unfold gf_marginal.
-  assert (Hs : forall r, In r (filter (in_target t) l) -> wt r == 1) by (intros r Hr; apply H; apply filter_In in Hr; tauto).
-  destruct (unit_weights_sum a _ Hs) as [E1 E2]. rewrite E1, E2.
-  destruct t; [unfold gf_fit_population_now_Q|unfold gf_fit_exposed_now_Q|unfold gf_fit_unexposed_now_Q]; cbv zeta.
-  - assert (E : filter (in_target TAll) l = l) by (clear; induction l as [|r rs IH]; cbn; [reflexivity|rewrite IH; reflexivity]).
-    rewrite E, psum_view, len_view. reflexivity.
-  - rewrite (filter_view (fun b => b) a l), psum_view, len_view. reflexivity.
-  - rewrite (filter_view negb a l), psum_view, len_view. reflexivity.
+  unfold gf_marginal_f.
+  destruct t; [unfold gf_sto_population_w_Q|unfold gf_sto_exposed_w_Q|unfold gf_sto_unexposed_w_Q]; cbv zeta.
+  - rewrite filter_all, wsum_viewf, wtot_viewf. reflexivity.
+  - rewrite (filter_viewf (fun b => b) f l), wsum_viewf, wtot_viewf. reflexivity.
+  - rewrite (filter_viewf negb f l), wsum_viewf, wtot_viewf. reflexivity.
 Qed.
+
+Lemma gen_sto_now t f l : (forall r, In r l -> wt r == 1) ->
+  (match t with TAll => gf_sto_population_now_Q | TExposed => gf_sto_exposed_now_Q | TUnexposed => gf_sto_unexposed_now_Q end) (viewf f l)
+  == gf_marginal_f t f l.
+Proof.
+  intros H. unfold gf_marginal_f. destruct (unit_weights_f t f l H) as [E1 E2]. rewrite E1, E2.
+  destruct t; [unfold gf_sto_population_now_Q|unfold gf_sto_exposed_now_Q|unfold gf_sto_unexposed_now_Q]; cbv zeta.
+  - rewrite filter_all, psum_viewf, len_viewf. reflexivity.
+  - rewrite (filter_viewf (fun b => b) f l), psum_viewf, len_viewf. reflexivity.
+  - rewrite (filter_viewf negb f l), psum_viewf, len_viewf. reflexivity.
+Qed.
+
+(* a replicate that assigns everybody to a (probability 1 or 0) is marginalised to the deterministic plan's value *)
+Corollary gen_sto_degenerate_w t a l :
+  (match t with TAll => gf_sto_population_w_Q | TExposed => gf_sto_exposed_w_Q | TUnexposed => gf_sto_unexposed_w_Q end) (view a l)
+  == gf_marginal t a l.
+Proof. exact (gen_sto_w t (qa a) l). Qed.
+Corollary gen_sto_degenerate_now t a l : (forall r, In r l -> wt r == 1) ->
+  (match t with TAll => gf_sto_population_now_Q | TExposed => gf_sto_exposed_now_Q | TUnexposed => gf_sto_unexposed_now_Q end) (view a l)
+  == gf_marginal t a l.
+Proof. exact (gen_sto_now t (qa a) l). Qed.
